@@ -187,7 +187,7 @@ def run(spec):
 # are created in ONE generated order (a country may join a currency that already has bookings; the external sector may
 # appear anywhere before its first use).  Oracle: the FX intermediary's books balance in every period and every zone is
 # stock-flow consistent once the FX position is counted.
-CURS = ['EUR', 'USD', 'GBP']
+CURS = ['EURO', 'EUR', 'GBP']      # (one code contains another: currencies are matched whole, never by substring)
 
 
 @st.composite
